@@ -489,13 +489,12 @@ func c10ProtoCode(c *Ctx) {
 	P := c.P
 	// HTTP
 	if shoot := P.Func("components/guns/http", "BaseGun", "Shoot"); shoot != nil {
+		// the function that performs the exchange: Shoot itself or a helper it hands the request to
+		holder, do := findCallIn(shoot, "Do")
+		if holder != nil {
+			shoot = holder
+		}
 		key := fk(shoot)
-		var do *ssa.Call
-		EachInstr(shoot, func(in ssa.Instruction) {
-			if cl, ok := in.(*ssa.Call); ok && cl.Call.IsInvoke() && cl.Call.Method.Name() == "Do" {
-				do = cl
-			}
-		})
 		if do == nil {
 			c.Anchor("O10.3", "Client.Do in BaseGun.Shoot")
 		} else {
@@ -687,6 +686,9 @@ func c10ProtoCode(c *Ctx) {
 func c10NetCode(c *Ctx) {
 	P := c.P
 	if shoot := P.Func("components/guns/http", "BaseGun", "Shoot"); shoot != nil {
+		if holder, _ := findCallIn(shoot, "Do"); holder != nil {
+			shoot = holder
+		}
 		// the deferred closure: SetErr(err) on err != nil, with err the variable assigned by Client.Do / io.Copy
 		var dfn *ssa.Function
 		EachInstr(shoot, func(in ssa.Instruction) {
